@@ -1,6 +1,6 @@
 (** C31 — round trip: printed first-order types read back as the same type. *)
 From Coq Require Import String Ascii List NArith Bool Arith Lia.
-From V.C31 Require Import Tokens GenPrinter Model.
+From V.C31 Require Import Tokens GenPrinter Model Spec.
 Import ListNotations.
 Open Scope string_scope.
 Open Scope list_scope.
@@ -30,42 +30,6 @@ Section TyInd.
     | TFun ps ins fl out => HFun ps ins fl out (go ins) (ty_ind' out)
     end.
 End TyInd.
-
-(* ------------------------------------------------------------ specification side *)
-
-(* names Python's parser does not read as identifiers *)
-Definition is_kw (s : string) : bool := String.eqb s "None" || String.eqb s "True" || String.eqb s "False".
-
-(* the argument [a] is admissible for parameter [p] (kinds and Copy/Drop bounds) *)
-Definition arg_fits (E : env) (p : dparam) (a : ty) : bool :=
-  match p, a with
-  | DPNat, CNat _ => true
-  | DPNat, _ => false
-  | DPType _ _, CNat _ => false
-  | DPType mc md, _ => (if mc then copyable E a else true) && (if md then droppable E a else true)
-  end.
-
-(* [t] is a well-formed first-order type over the definitions in [E]: numerics, None, tuples,
-   and applications [d[args]] of a definition [d] of [E] (bool, str, array, frozenarray, Option,
-   structs ...) to as many arguments as it has parameters, each fitting its parameter *)
-Fixpoint wf (E : env) (t : ty) : bool :=
-  match t with
-  | TNum _ | TNone => true
-  | TTuple ts => forallb (wf E) ts
-  | TApp d args =>
-      negb (is_kw d) &&
-      match slookup d E with
-      | Some (DApp ps _ _) =>
-          Nat.eqb (length ps) (length args) &&
-          forallb (fun pa => arg_fits E (fst pa) (snd pa)) (combine ps args) &&
-          forallb (fun a => match a with CNat _ => true | _ => wf E a end) args
-      | _ => false
-      end
-  | _ => false
-  end.
-
-(* the builtin numeric names denote the numeric definitions (they are not shadowed) *)
-Definition env_ok (E : env) : Prop := forall k, slookup (num_name k) E = Some (DNum k).
 
 (* ------------------------------------------------------------ pure printer on first-order types *)
 
@@ -173,17 +137,19 @@ Proof.
   - simpl. apply Hx.
   - inversion Hl; subst.
     change (join [TComma] (map prf (x :: y :: l))) with (prf x ++ [TComma] ++ join [TComma] (map prf (y :: l))).
-    rewrite <- !app_assoc. rewrite Hx. simpl app.
-    change (run (TComma :: ?r) (Some ?e) ?s) with (run (TComma :: r) (Some e) s).
-    cbn [run step]. rewrite IH; auto.
+    rewrite <- !app_assoc. rewrite Hx.
+    change ([TComma] ++ join [TComma] (map prf (y :: l)) ++ rest)
+      with (TComma :: (join [TComma] (map prf (y :: l)) ++ rest)).
+    change (run (TComma :: ?r) (Some ?e) ((k, items, c) :: stk)) with (run r None ((k, e :: items, true) :: stk)).
+    rewrite IH; auto.
 Qed.
 
 Lemma seq_end_spec : forall l x items c,
   let '(e, items', c') := seq_end x l items c in
   rev (e :: items') = rev items ++ map ast_of (x :: l) /\ c' = (c || negb (Nat.eqb (length l) 0)).
 Proof.
-  induction l as [|y l IH]; intros x items c; simpl.
-  - split; [reflexivity | rewrite orb_false_r; reflexivity].
+  induction l as [|y l IH]; intros x items c; cbn [seq_end].
+  - split; [reflexivity | simpl; rewrite orb_false_r; reflexivity].
   - specialize (IH y (ast_of x :: items) true). destruct (seq_end y l (ast_of x :: items) true) as [[e i'] c'].
     destruct IH as [IH1 IH2]. split.
     + rewrite IH1. simpl. rewrite <- app_assoc. reflexivity.
@@ -287,11 +253,8 @@ Proof.
         cbn [arg_of]. rewrite Hd.
         destruct x; simpl in Ht; try discriminate; cbn [ast_of] in *;
           try (rewrite Hx; simpl; rewrite Hpo; reflexivity).
-        -- (* TApp inside: ast is PName or PSub, never PTuple *)
-           destruct args as [|a1 [|a2 l2]]; rewrite Hx; simpl; rewrite Hpo; reflexivity.
-        -- simpl in Hargs. discriminate.
-        -- simpl in Hargs. discriminate.
-        -- simpl in Hargs. discriminate.
+        (* TApp inside: its ast is PName or PSub, never PTuple *)
+        destruct args as [|a1 [|a2 l2]]; rewrite Hx; simpl; rewrite Hpo; reflexivity.
     + cbn [ast_of arg_of]. rewrite Hd. rewrite Hall. simpl. rewrite Hpo. reflexivity.
   - reflexivity.
 Qed.
